@@ -1,0 +1,219 @@
+//! Observation hooks for model-based verification. Compiled only with `--cfg rustfft_verif`.
+//!
+//! Nothing in here changes what the library computes. It provides
+//!  - a mask that is ANDed onto the results of x86 feature detection, so that weaker CPUs can be emulated,
+//!  - a thread-local event sink that records planner / cache / chunk-iteration steps,
+//!  - a thread-local callback invoked at every chunk boundary (a "yield point").
+
+use std::cell::{Cell, RefCell};
+use std::sync::atomic::{AtomicU32, Ordering};
+
+pub const MASK_SSE41: u32 = 1;
+pub const MASK_AVX: u32 = 2;
+pub const MASK_FMA: u32 = 4;
+pub const MASK_AVX2: u32 = 8;
+pub const MASK_ALL: u32 = 15;
+
+static FEATURE_MASK: AtomicU32 = AtomicU32::new(MASK_ALL);
+
+/// Restrict the x86 features that RustFFT is allowed to see. Features can only be removed, never added.
+pub fn set_feature_mask(mask: u32) {
+    FEATURE_MASK.store(mask & MASK_ALL, Ordering::SeqCst);
+}
+pub fn feature_mask() -> u32 {
+    FEATURE_MASK.load(Ordering::SeqCst)
+}
+#[doc(hidden)]
+pub fn feature_allowed(name: &str) -> bool {
+    let bit = match name {
+        "sse4.1" => MASK_SSE41,
+        "avx" => MASK_AVX,
+        "fma" => MASK_FMA,
+        "avx2" => MASK_AVX2,
+        _ => return true,
+    };
+    feature_mask() & bit != 0
+}
+
+// Shadows std's macro inside this crate (textual scope, this module is declared first with #[macro_use]).
+#[cfg(target_arch = "x86_64")]
+macro_rules! is_x86_feature_detected {
+    ($feature:tt) => {
+        (std::is_x86_feature_detected!($feature) && $crate::verif_hooks::feature_allowed($feature))
+    };
+}
+
+#[derive(Clone, Debug, PartialEq)]
+pub enum VerifEvent {
+    CacheGet {
+        len: usize,
+        inverse: bool,
+        hit: bool,
+    },
+    CacheInsert {
+        len: usize,
+        inverse: bool,
+    },
+    Build {
+        desc: String,
+        len: usize,
+        inverse: bool,
+        scratch: [usize; 3],
+    },
+    Enter {
+        variant: &'static str,
+        chunk: usize,
+        len1: usize,
+        len2: usize,
+        scratch: usize,
+        required: usize,
+        depth: usize,
+    },
+    Chunk {
+        depth: usize,
+        width: usize,
+        remaining: usize,
+    },
+    Leave {
+        depth: usize,
+    },
+}
+
+thread_local! {
+    static SINK: RefCell<Option<Vec<VerifEvent>>> = RefCell::new(None);
+    static DEPTH: Cell<usize> = Cell::new(0);
+    static YIELD_CB: RefCell<Option<Box<dyn FnMut(&VerifEvent)>>> = RefCell::new(None);
+    static CHUNK_EVENTS: Cell<bool> = Cell::new(false);
+}
+
+/// Start recording events on this thread. `chunk_events` also records Enter/Chunk/Leave of the iteration helpers.
+pub fn start_recording(chunk_events: bool) {
+    SINK.with(|s| *s.borrow_mut() = Some(Vec::new()));
+    CHUNK_EVENTS.with(|c| c.set(chunk_events));
+}
+/// Stop recording and return what was recorded on this thread.
+pub fn take_events() -> Vec<VerifEvent> {
+    CHUNK_EVENTS.with(|c| c.set(false));
+    SINK.with(|s| s.borrow_mut().take()).unwrap_or_default()
+}
+/// Install (or remove) a callback that is invoked on this thread at every chunk boundary of depth-0.. iteration helpers.
+pub fn set_yield_callback(cb: Option<Box<dyn FnMut(&VerifEvent)>>) {
+    YIELD_CB.with(|y| *y.borrow_mut() = cb);
+}
+
+#[inline]
+pub(crate) fn emit(ev: impl FnOnce() -> VerifEvent) {
+    SINK.with(|s| {
+        if let Ok(mut guard) = s.try_borrow_mut() {
+            if let Some(v) = guard.as_mut() {
+                v.push(ev());
+            }
+        }
+    });
+}
+
+#[inline]
+fn chunk_hooks_active() -> bool {
+    CHUNK_EVENTS.with(|c| c.get()) || YIELD_CB.with(|y| y.try_borrow().map(|b| b.is_some()).unwrap_or(false))
+}
+
+pub(crate) struct IterScope {
+    active: bool,
+    depth: usize,
+}
+impl IterScope {
+    #[inline]
+    pub(crate) fn enter(
+        variant: &'static str,
+        chunk: usize,
+        len1: usize,
+        len2: usize,
+        scratch: usize,
+        required: usize,
+    ) -> Self {
+        if !chunk_hooks_active() {
+            return Self {
+                active: false,
+                depth: 0,
+            };
+        }
+        let depth = DEPTH.with(|d| {
+            let v = d.get();
+            d.set(v + 1);
+            v
+        });
+        if CHUNK_EVENTS.with(|c| c.get()) {
+            emit(|| VerifEvent::Enter {
+                variant,
+                chunk,
+                len1,
+                len2,
+                scratch,
+                required,
+                depth,
+            });
+        }
+        Self {
+            active: true,
+            depth,
+        }
+    }
+    #[inline]
+    pub(crate) fn chunk(&self, width: usize, remaining: usize) {
+        if !self.active {
+            return;
+        }
+        let ev = VerifEvent::Chunk {
+            depth: self.depth,
+            width,
+            remaining,
+        };
+        if CHUNK_EVENTS.with(|c| c.get()) {
+            emit(|| ev.clone());
+        }
+        // take the callback out while it runs so that it may itself call into the library
+        let cb = YIELD_CB.with(|y| y.try_borrow_mut().ok().and_then(|mut b| b.take()));
+        if let Some(mut cb) = cb {
+            cb(&ev);
+            YIELD_CB.with(|y| {
+                if let Ok(mut b) = y.try_borrow_mut() {
+                    if b.is_none() {
+                        *b = Some(cb);
+                    }
+                }
+            });
+        }
+    }
+}
+impl Drop for IterScope {
+    fn drop(&mut self) {
+        if self.active {
+            DEPTH.with(|d| d.set(self.depth));
+            if CHUNK_EVENTS.with(|c| c.get()) {
+                let depth = self.depth;
+                emit(|| VerifEvent::Leave { depth });
+            }
+        }
+    }
+}
+
+/// Record that a planner has just built `fft` for the plan node described by `desc` (Debug text; only its head is kept).
+pub(crate) fn emit_build<T: crate::FftNum>(desc: &dyn std::fmt::Debug, fft: &std::sync::Arc<dyn crate::Fft<T>>) {
+    emit(|| {
+        let full = format!("{:?}", desc);
+        let head: String = full
+            .chars()
+            .take_while(|c| c.is_alphanumeric() || *c == '_')
+            .collect();
+        VerifEvent::Build {
+            desc: head,
+            len: fft.len(),
+            inverse: fft.fft_direction() == crate::FftDirection::Inverse,
+            scratch: [
+                fft.get_inplace_scratch_len(),
+                fft.get_outofplace_scratch_len(),
+                fft.get_immutable_scratch_len(),
+            ],
+        }
+    });
+}
